@@ -243,7 +243,7 @@ public:
       hexasm::CodeGen cg(program);
       cg.emitBin("ref.bin");
       return 0;
-    }, 5);
+    }, 90);
     Ref r;
     if (t.kind == sim::Trapped::CRASHED) { r.usable = false; r.why = t.str(); }
     else if (t.kind == sim::Trapped::RETURNED && t.status == 0 && sim::fs::exists("ref.bin")) { r.usable = true; r.accepted = true; r.bytes = sim::fs::get("ref.bin"); }
@@ -282,7 +282,7 @@ public:
       hexasm::CodeGen cg(program);
       cg.emitProgramText(sink);
       return 0;
-    }, 5);
+    }, 90);
     ss.detach();
     sim::fs::reset();
     for (auto &kv : saved) sim::fs::put(kv.first, kv.second);
@@ -308,7 +308,7 @@ public:
       if (tool == "hexasm") return hexasm_main(argc, av.data());
       if (tool == "xrun") return xrun_main(argc, (char **)av.data());
       return hexsim_main(argc, av.data());
-    }, 10);
+    }, 90);
     r.out = ss.out.data; r.err = ss.err.data; r.consumed = ss.in.consumed();
     ss.detach();
     r.after = sim::fs::snapshot();
@@ -484,6 +484,7 @@ public:
       o.note = "completed:recorded_only";
       return;
     }
+    if (r.t.kind == sim::Trapped::CRASHED && r.t.signal == SIGALRM) { o.note = "skipped:watchdog"; o.count("probe.watchdog_hit"); return; }   // wall-clock never decides a verdict
     if (r.t.kind == sim::Trapped::CRASHED) { o.violate("crashed", tool + " " + r.t.str() + " [source '" + clip(srcText, 60) + "']", "crashed:" + tool); return; }
 
     // Listing-only invocations: status alone.
@@ -614,6 +615,7 @@ public:
     o.nontrivial = true;
     o.simInstr = 1;
     o.stateKeys.push_back(std::string("c14 hexsim ") + (limited ? "limited" : "unlimited") + " exit=" + std::to_string(exitValue & 0xFF));
+    if (r.t.kind == sim::Trapped::CRASHED && r.t.signal == SIGALRM) { o.note = "skipped:watchdog"; o.count("probe.watchdog_hit"); return; }
     if (r.t.kind == sim::Trapped::CRASHED) { o.violate("crashed", "hexsim " + r.t.str(), "crashed:hexsim"); return; }
     if (limited && steps > maxCycles + 1) { o.count("probe.hexsim_cut_before_exit_not_judged"); return; }    // a cut run's status is C12's subject
     if (limited && steps == maxCycles + 1) o.count("probe.exit_on_last_permitted_instruction");
